@@ -15,7 +15,15 @@ type Handler = fn(&str, &[&str]) -> Option<String>;
 include!("handlers.rs");
 
 fn main() {
-    std::panic::set_hook(Box::new(|_| {}));
+    // YMQH_PANICMSG=1: print panic locations on stderr (diagnostics only)
+    if std::env::var("YMQH_PANICMSG").is_ok() {
+        std::panic::set_hook(Box::new(|info| {
+            eprintln!("PANIC {}", info.to_string().replace('\n', " | "));
+            if std::env::var("YMQH_BT").is_ok() { eprintln!("{}", std::backtrace::Backtrace::force_capture()); }
+        }));
+    } else {
+        std::panic::set_hook(Box::new(|_| {}));
+    }
     let stdin = std::io::stdin();
     let stdout = std::io::stdout();
     let mut out = std::io::BufWriter::new(stdout.lock());
